@@ -12,10 +12,11 @@ class CmnRegisterShiftedRegister(Opcode):
         self.shift_t = shift_t
 
     def execute(self, processor):
-        shift_n = lower_chunk(processor.registers.get(self.s), 8)
-        shifted = shift(processor.registers.get(self.m), 32, self.shift_t, shift_n, processor.registers.cpsr.c)
-        result, carry, overflow = add_with_carry(processor.registers.get(self.n), shifted, 0)
-        processor.registers.cpsr.n = bit_at(result, 31)
-        processor.registers.cpsr.z = 0 if result else 1
-        processor.registers.cpsr.c = carry
-        processor.registers.cpsr.v = overflow
+        if processor.condition_passed():
+            shift_n = lower_chunk(processor.registers.get(self.s), 8)
+            shifted = shift(processor.registers.get(self.m), 32, self.shift_t, shift_n, processor.registers.cpsr.c)
+            result, carry, overflow = add_with_carry(processor.registers.get(self.n), shifted, 0)
+            processor.registers.cpsr.n = bit_at(result, 31)
+            processor.registers.cpsr.z = 0 if result else 1
+            processor.registers.cpsr.c = carry
+            processor.registers.cpsr.v = overflow
